@@ -73,3 +73,79 @@ package db
 //@ func syncIndexedDoc
 //@   tolerates call#1 Get when is(e, client.ErrDocumentNotFoundOrNotAuthorized) "a document absent before the merge is a new document: handled by the isNewDoc branch"
 //@   tolerates call#2 Get when is(e, client.ErrDocumentNotFoundOrNotAuthorized) "a document absent after the merge was deleted: handled by the isDeletedDoc branch"
+//@
+//@ // ===== C20: update notifications only for committed changes =====================================
+//@ // an update/merge-complete message may be published directly only after a successful commit ...
+//@ extern event.NewMessage(name, data) -> (m)
+//@   ensures m.Name == name
+//@   nodefault
+//@ extern (event.Bus).Publish(bus, msg)
+//@   requires msg.Name == event.UpdateName || msg.Name == event.MergeCompleteName ==> committed
+//@   nodefault
+//@ // ... and a closure that publishes may only be handed to OnSuccess (it then runs after the commit,
+//@ // see (*datastore.BasicTxn).Commit)
+//@ discipline closure-calling (event.Bus).Publish only-arg-of (datastore.Txn).OnSuccess
+//@ extern (datastore.Txn).OnSuccess(txn, fn)
+//@   nodefault
+//@
+//@ func (*collection).save
+//@   assert before call#2 OnSuccess: updateEvent.Cid == res(AddDelta, 2, 0).Cid && updateEvent.Block == res(AddDelta, 2, 1)
+//@   assert before call#4 OnSuccess: updateEvent.Cid == res(AddDelta, 3, 0).Cid && updateEvent.Block == res(AddDelta, 3, 1)
+//@   tags C20
+//@ func (*collection).applyDelete
+//@   assert before call#1 OnSuccess: updateEvent.Cid == res(AddDelta, 1, 0).Cid && updateEvent.Block == res(AddDelta, 1, 1)
+//@   assert before call#2 OnSuccess: updateEvent.Cid == res(AddDelta, 2, 0).Cid && updateEvent.Block == res(AddDelta, 2, 1)
+//@   tags C20
+//@ func (*DB).executeMerge
+//@   tags C20
+//@ apply TxnAPI: (*DB).executeMerge
+//@
+//@ // ===== C06: API calls run inside the caller's explicit transaction and never end it ===============
+//@ ghost kvCommits int
+//@ ghost kvCommitOK bool
+//@ ghost kvDiscards int
+//@ ghost newTxns int
+//@ // context plumbing (A5: context.WithValue/Value)
+//@ extern datastore.CtxTryGetTxn(ctx) -> (t, ok)
+//@   pure
+//@   nodefault
+//@   opt alias=ctxTxn,ctxHasTxn sig=iface:iface,bool
+//@ extern datastore.CtxSetFromClientTxn(ctx, txn) -> (r)
+//@   ensures ctxHasTxn(r) && ctxTxn(r) == txn
+//@   nodefault
+//@ extern id.InitCollectionShortIDCache(ctx) -> (r)
+//@   ensures ctxHasTxn(r) == ctxHasTxn(ctx) && ctxTxn(r) == ctxTxn(ctx)
+//@   nodefault
+//@ extern id.InitFieldShortIDCache(ctx) -> (r)
+//@   ensures ctxHasTxn(r) == ctxHasTxn(ctx) && ctxTxn(r) == ctxTxn(ctx)
+//@   nodefault
+//@ extern (db.transactionDB).NewTxn(d, ctx, ro) -> (t, e)
+//@   ensures newTxns == old(newTxns) + 1
+//@   modifies newTxns
+//@ func InitContext -> (r)
+//@   ensures ctxHasTxn(r) && ctxTxn(r) == txn
+//@   tags C06
+//@ // an explicit transaction is never committed or discarded by an API call ...
+//@ func (*Txn).Commit -> (err)
+//@   ensures old(txn.explicit) ==> err == nil && kvCommits == old(kvCommits) && kvDiscards == old(kvDiscards)
+//@   ensures !old(txn.explicit) ==> kvCommits == old(kvCommits) + 1 && (err == nil) == kvCommitOK
+//@   modifies kvCommits, kvCommitOK, failed
+//@   tags C06 C05
+//@ func (*Txn).Discard
+//@   ensures old(txn.explicit) ==> kvCommits == old(kvCommits) && kvDiscards == old(kvDiscards)
+//@   ensures !old(txn.explicit) ==> kvDiscards == old(kvDiscards) + 1 && kvCommits == old(kvCommits)
+//@   modifies kvDiscards
+//@   tags C06 C05
+//@ // ... and a call that finds a transaction in its context runs in it: no new transaction is created,
+//@ // the transaction handed on is marked explicit, wraps the very same store transaction, and is the one
+//@ // carried by the returned context
+//@ func ensureContextTxn -> (c, rtxn, e)
+//@   opt verify-only
+//@   ensures ctxHasTxn(ctx) ==> newTxns == old(newTxns)
+//@   ensures ctxHasTxn(ctx) && e == nil ==> as(rtxn, *Txn).explicit
+//@   ensures ctxHasTxn(ctx) && e == nil && hastype(ctxTxn(ctx), *Txn) ==> as(rtxn, *Txn).BasicTxn == old(as(ctxTxn(ctx), *Txn).BasicTxn)
+//@   ensures ctxHasTxn(ctx) && e == nil && hastype(ctxTxn(ctx), *datastore.BasicTxn) ==> as(rtxn, *Txn).BasicTxn == as(ctxTxn(ctx), *datastore.BasicTxn)
+//@   ensures e == nil ==> ctxHasTxn(c) && ctxTxn(c) == rtxn
+//@   ensures !ctxHasTxn(ctx) ==> newTxns == old(newTxns) + 1
+//@   modifies newTxns, failed
+//@   tags C06
